@@ -287,3 +287,112 @@ package astits
 //@   ensures [C11,C08,C02,C01] payload: err == nil && hasPL && plOff < N ==> len(p.Payload) == N - plOff && bytesOf(p.Payload) == old(bytesOf(i.bs[plOff:]))
 //@   ensures [C11,C16,C02] payloadfresh: err == nil && hasPL && plOff < N ==> fresh(p.Payload)
 //@   ensures [C11,C02] nopayload: err == nil && !(hasPL && plOff < N) ==> len(p.Payload) == 0 && p.Payload == nil
+
+// PES optional header (2.4.3.7). Offsets relative to the first flag byte.
+//@ func parsePESOptionalHeader
+//@   requires itOK(i)
+//@   modifies i.offset
+//@   let o = old(i.offset)
+//@   let b0 = old(ib(i, 0))
+//@   let b1 = old(ib(i, 1))
+//@   let hl = int(old(ib(i, 2)))
+//@   let ind = b1 >> 6
+//@   let hasESCR = bit(b1, 0x20)
+//@   let hasRate = bit(b1, 0x10)
+//@   let hasTrick = bit(b1, 0x08)
+//@   let hasCopy = bit(b1, 0x04)
+//@   let hasCRC = bit(b1, 0x02)
+//@   let hasExt = bit(b1, 0x01)
+//@   let oESCR = 3 + ite(ind == 2, 5, ite(ind == 3, 10, 0))
+//@   let oRate = oESCR + ite(hasESCR, 6, 0)
+//@   let oTrick = oRate + ite(hasRate, 3, 0)
+//@   let oCopy = oTrick + ite(hasTrick, 1, 0)
+//@   let oCRC = oCopy + ite(hasCopy, 1, 0)
+//@   let oExtF = oCRC + ite(hasCRC, 2, 0)
+//@   let ef = old(ib(i, oExtF))
+//@   let hasPD = hasExt && bit(ef, 0x80)
+//@   let hasPack = hasExt && bit(ef, 0x40)
+//@   let hasSeq = hasExt && bit(ef, 0x20)
+//@   let hasPSTD = hasExt && bit(ef, 0x10)
+//@   let hasExt2 = hasExt && bit(ef, 0x01)
+//@   let oPD = oExtF + 1
+//@   let oPack = oPD + ite(hasPD, 16, 0)
+//@   let oSeq = oPack + ite(hasPack, 1, 0)
+//@   let oPSTD = oSeq + ite(hasSeq, 2, 0)
+//@   let oExt2 = oPSTD + ite(hasPSTD, 2, 0)
+//@   let e2len = int(old(ib(i, oExt2)) & 0x7f)
+//@   let consumed = ite(hasExt, ite(hasExt2, oExt2 + 1 + e2len, oExt2), oExtF)
+//@   split hasExt, ind == 2, ind == 3, hasExt2
+//@   at read PESOptionalHeader.PTSDTSIndicator#0 assert fInd: h.PTSDTSIndicator == ind
+//@   at read PESOptionalHeader.HasESCR#0 assert fESCR: h.HasESCR == hasESCR
+//@   at read PESOptionalHeader.HasESCR#0 assert cESCR: i.offset == o + oESCR
+//@   at read PESOptionalHeader.HasESRate#0 assert fRate: h.HasESRate == hasRate
+//@   at read PESOptionalHeader.HasESRate#0 assert cRate: i.offset == o + oRate
+//@   at read PESOptionalHeader.HasDSMTrickMode#0 assert fTrick: h.HasDSMTrickMode == hasTrick
+//@   at read PESOptionalHeader.HasDSMTrickMode#0 assert cTrick: i.offset == o + oTrick
+//@   at read PESOptionalHeader.HasAdditionalCopyInfo#0 assert fCopy: h.HasAdditionalCopyInfo == hasCopy
+//@   at read PESOptionalHeader.HasAdditionalCopyInfo#0 assert cCopy: i.offset == o + oCopy
+//@   at read PESOptionalHeader.HasCRC#0 assert fCRC: h.HasCRC == hasCRC
+//@   at read PESOptionalHeader.HasCRC#0 assert cCRC: i.offset == o + oCRC
+//@   at read PESOptionalHeader.HasExtension#0 assert fExt: h.HasExtension == hasExt
+//@   at read PESOptionalHeader.HasExtension#0 assert cExt: i.offset == o + oExtF
+//@   at read PESOptionalHeader.HasPrivateData#0 assert fPD: h.HasPrivateData == hasPD
+//@   at read PESOptionalHeader.HasPrivateData#0 assert cPD: i.offset == o + oPD
+//@   at read PESOptionalHeader.HasPackHeaderField#0 assert fPack: h.HasPackHeaderField == hasPack
+//@   at read PESOptionalHeader.HasPackHeaderField#0 assert cPack: i.offset == o + oPack
+//@   at read PESOptionalHeader.HasProgramPacketSequenceCounter#0 assert fSeq: h.HasProgramPacketSequenceCounter == hasSeq
+//@   at read PESOptionalHeader.HasProgramPacketSequenceCounter#0 assert cSeq: i.offset == o + oSeq
+//@   at read PESOptionalHeader.HasPSTDBuffer#0 assert fPSTD: h.HasPSTDBuffer == hasPSTD
+//@   at read PESOptionalHeader.HasPSTDBuffer#0 assert cPSTD: i.offset == o + oPSTD
+//@   at read PESOptionalHeader.HasExtension2#0 assert fExt2: h.HasExtension2 == hasExt2
+//@   at read PESOptionalHeader.HasExtension2#0 assert cExt2: i.offset == o + oExt2
+//@   ensures [C12,C16] fresh: err == nil ==> h != nil && fresh(h)
+//@   ensures [C12] start: err == nil ==> dataStart == o + 3 + hl
+//@   ensures [C12,C03] offset: err == nil ==> i.offset == o + consumed
+//@   ensures [C12] byte0: err == nil ==> h.MarkerBits == b0 >> 6 && h.ScramblingControl == b0 >> 4 & 3 && h.Priority == bit(b0, 0x08) && h.DataAlignmentIndicator == bit(b0, 0x04) && h.IsCopyrighted == bit(b0, 0x02) && h.IsOriginal == bit(b0, 0x01)
+//@   ensures [C12] byte1: err == nil ==> h.PTSDTSIndicator == ind && h.HasESCR == hasESCR && h.HasESRate == hasRate && h.HasDSMTrickMode == hasTrick && h.HasAdditionalCopyInfo == hasCopy && h.HasCRC == hasCRC && h.HasExtension == hasExt
+//@   ensures [C12] hlen: err == nil ==> h.HeaderLength == u8(hl)
+//@   ensures [C12] pts: err == nil && (ind == 2 || ind == 3) ==> h.PTS != nil && h.PTS.Base == i64(old(decTS33(i.bs, i.offset + 3)))
+//@   ensures [C12] nopts: err == nil && !(ind == 2 || ind == 3) ==> h.PTS == nil
+//@   ensures [C12] dts: err == nil && ind == 3 ==> h.DTS != nil && h.DTS.Base == i64(old(decTS33(i.bs, i.offset + 8)))
+//@   ensures [C12] nodts: err == nil && ind != 3 ==> h.DTS == nil
+//@   ensures [C12] escr: err == nil && hasESCR ==> h.ESCR != nil && h.ESCR.Base == i64(old(decESCRBase(i.bs, i.offset + oESCR))) && h.ESCR.Extension == i64(old(decESCRExt(i.bs, i.offset + oESCR)))
+//@   ensures [C12] rate: err == nil && hasRate ==> h.ESRate == old(be24(i.bs, i.offset + oRate)) >> 1 & 0x3fffff
+//@   ensures [C12] trick: err == nil && hasTrick ==> h.DSMTrickMode != nil && h.DSMTrickMode.TrickModeControl == old(ib(i, oTrick)) >> 5
+//@   ensures [C12] copy: err == nil && hasCopy ==> h.AdditionalCopyInfo == old(ib(i, oCopy)) & 0x7f
+//@   ensures [C12] crc: err == nil && hasCRC ==> h.CRC == old(be16(i.bs, i.offset + oCRC))
+//@   ensures [C12] extflags: err == nil ==> h.HasPrivateData == hasPD && h.HasPackHeaderField == hasPack && h.HasProgramPacketSequenceCounter == hasSeq && h.HasPSTDBuffer == hasPSTD && h.HasExtension2 == hasExt2
+//@   ensures [C12] pd: err == nil && hasPD ==> len(h.PrivateData) == 16 && bytesOf(h.PrivateData) == old(bytesOf(i.bs[i.offset + oPD : i.offset + oPD + 16]))
+//@   ensures [C12,C16] pdfresh: err == nil && hasPD ==> fresh(h.PrivateData)
+//@   ensures [C12] pack: err == nil && hasPack ==> h.PackField == old(ib(i, oPack))
+//@   ensures [C12] seq: err == nil && hasSeq ==> h.PacketSequenceCounter == old(ib(i, oSeq)) & 0x7f && h.MPEG1OrMPEG2ID == old(ib(i, oSeq + 1)) >> 6 & 1 && h.OriginalStuffingLength == old(ib(i, oSeq + 1)) & 0x3f
+//@   ensures [C12] pstd: err == nil && hasPSTD ==> h.PSTDBufferScale == old(ib(i, oPSTD)) >> 5 & 1 && h.PSTDBufferSize == old(be16(i.bs, i.offset + oPSTD)) & 0x1fff
+//@   ensures [C12] ext2: err == nil && hasExt2 ==> h.Extension2Length == u8(e2len) && len(h.Extension2Data) == e2len && bytesOf(h.Extension2Data) == old(bytesOf(i.bs[i.offset + oExt2 + 1 : i.offset + oExt2 + 1 + e2len]))
+//@   ensures [C12,C16] ext2fresh: err == nil && hasExt2 && e2len > 0 ==> fresh(h.Extension2Data)
+
+//@ func parsePESHeader
+//@   requires itOK(i)
+//@   modifies i.offset
+//@   let o = old(i.offset)
+//@   let sid = old(ib(i, 0))
+//@   let plen = old(be16(i.bs, i.offset + 1))
+//@   let hasOpt = sid != 190 && sid != 191
+//@   ensures [C12,C16] fresh: err == nil ==> h != nil && fresh(h)
+//@   ensures [C12] sid: err == nil ==> h.StreamID == sid && h.PacketLength == plen
+//@   ensures [C12] end: err == nil ==> dataEnd == ite(plen > 0, o + 3 + int(plen), len(i.bs))
+//@   ensures [C12] opt: err == nil ==> (h.OptionalHeader != nil) == hasOpt
+//@   ensures [C12] start: err == nil ==> dataStart == ite(hasOpt, o + 6 + int(old(ib(i, 5))), o + 3)
+
+//@ func parsePESData
+//@   requires itOK(i) && len(i.bs) >= 3
+//@   modifies i.offset
+//@   let sid = old(i.bs[3])
+//@   let plen = old(be16(i.bs, 4))
+//@   let hasOpt = sid != 190 && sid != 191
+//@   let dStart = ite(hasOpt, 9 + int(old(i.bs[8])), 6)
+//@   let dEnd = ite(plen > 0, 6 + int(plen), len(i.bs))
+//@   ensures [C12,C16] fresh: err == nil ==> d != nil && fresh(d) && d.Header != nil
+//@   ensures [C12] range: err == nil ==> dStart <= dEnd && dEnd <= len(i.bs)
+//@   ensures [C12,C01,C02] data: err == nil ==> len(d.Data) == dEnd - dStart && bytesOf(d.Data) == old(bytesOf(i.bs[dStart:dEnd]))
+//@   ensures [C12,C16] datafresh: err == nil ==> fresh(d.Data)
+//@   ensures [C12] hdr: err == nil ==> d.Header.StreamID == sid && d.Header.PacketLength == plen
